@@ -71,7 +71,7 @@ func (e *Engine) recordRace(st *State, p Ptr, a, b ssa.Instruction, aw, bw bool)
 		return
 	}
 	what := ""
-	if o := st.Heap[p.Obj]; o != nil && o.T != nil {
+	if o := st.lookupObj(p.Obj); o != nil && o.T != nil {
 		what = fmt.Sprintf(" on %s+%d (allocated at %s)", o.T, p.Off, o.Site)
 	}
 	e.Races[key] = fmt.Sprintf("%s at %s races with %s at %s%s", rw(aw), pa, rw(bw), pb, what)
